@@ -262,6 +262,17 @@ type vfRouteScenario struct {
 	RingCap    int         `json:"ring_cap,omitempty"` // initial capacity of the proxy-id ring (0 = the code's 1024)
 	Gated      []int       `json:"gated,omitempty"`    // target shards whose stream accepts a Send only on the action accept:k (slow target)
 	FaultKinds []string    `json:"fault_kinds,omitempty"`
+	// Proxies > 1: several proxy instances (own shard manager, own servers) share the two Temporal clusters; PlaceT /
+	// PlaceS say which instance (0-based) each target / source shard's stream connects to (default: instance 0).
+	// Instances learn each other's ownership by a state exchange after every environment action (the convergent
+	// outcome of C09) and their intra-proxy streams are in-memory pairs.
+	Proxies int   `json:"proxies,omitempty"`
+	PlaceT  []int `json:"place_t,omitempty"`
+	PlaceS  []int `json:"place_s,omitempty"`
+	// PlaceTNext: the instance a target shard's LATER streams (reconnects) go to; Overlap enables, in the macro search,
+	// a reconnect while the old stream is still alive (reopenT) and the later end of the old stream (breakOldT).
+	PlaceTNext []int `json:"place_t_next,omitempty"`
+	Overlap    bool  `json:"overlap,omitempty"`
 	// WMAdvance: the first watermark-only batch after the last scripted batch carries a high watermark this much
 	// above the last batch's (the source's watermark advances without tasks for this cluster)
 	WMAdvance int64 `json:"wm_advance,omitempty"`
@@ -305,6 +316,7 @@ type vfTgtStream struct {
 }
 
 type vfSrc struct {
+	lastWasWM    bool // the last message this source sent was a watermark-only batch
 	wmAdvanced   bool
 	failNextOpen bool // the next stream the proxy opens towards this source shard fails (C08 scenarios)
 	idx          int
@@ -335,9 +347,19 @@ type vfViolation struct {
 	Detail    string
 }
 
+type vfInst struct {
+	name     string
+	addr     string
+	sm       *shardManagerImpl
+	inbound  adminservice.AdminServiceServer
+	outbound adminservice.AdminServiceServer
+}
+
 type vfRouteExec struct {
 	sc           *vfRouteScenario
-	sm           *shardManagerImpl
+	sm           *shardManagerImpl // instance 0's
+	inst         []*vfInst
+	intraN       int // intra-proxy streams opened so far
 	hmu          sync.Mutex
 	regOps       []vfRegOp
 	handoff      []chan RoutedMessage
@@ -434,11 +456,6 @@ func vfNewRouteExec(sc *vfRouteScenario) *vfRouteExec {
 	lifetime, cancel := context.WithCancel(context.Background())
 	e.stop = cancel
 	scc := config.ShardCountConfig{Mode: config.ShardCountRouting}
-	e.sm = NewShardManager(nil, scc, encryption.TLSConfig{}, loggers).(*shardManagerImpl)
-	if err := e.sm.Start(lifetime); err != nil {
-		panic(err)
-	}
-	smw := &vfSMRecorder{shardManagerImpl: e.sm, e: e}
 	for i := 1; i <= sc.NS; i++ {
 		e.src = append(e.src, &vfSrc{idx: i, curHigh: sc.InitHigh, script: sc.Scripts[i-1]})
 	}
@@ -448,17 +465,130 @@ func vfNewRouteExec(sc *vfRouteScenario) *vfRouteExec {
 	// adminClientReverse of the outbound server = the source cluster; of the inbound = the target.
 	srcClient := &vfAdminClient{onOpen: e.onSourcePullOpen}
 	tgtClient := &vfAdminClient{onOpen: e.onTargetPullOpen}
-	observer := NewReplicationStreamObserver(log.NewNoopLogger())
-	// the parameters NewClusterConnection gives the two directions (see getRoutingParameters)
-	e.outbound = NewAdminServiceProxyServer("outbound", tgtClient, srcClient, AdminServiceOverrides{}, []string{"outbound"},
-		observer.ReportStreamValue, scc, LCMParameters{},
-		RoutingParameters{OverrideShardCount: int32(sc.NS), RoutingLocalShardCount: int32(sc.NT), DirectionLabel: "outbound"},
-		loggers, smw, lifetime)
-	e.inbound = NewAdminServiceProxyServer("inbound", srcClient, tgtClient, AdminServiceOverrides{}, []string{"inbound"},
-		observer.ReportStreamValue, scc, LCMParameters{},
-		RoutingParameters{OverrideShardCount: int32(sc.NT), RoutingLocalShardCount: int32(sc.NS), DirectionLabel: "inbound"},
-		loggers, smw, lifetime)
+	n := sc.Proxies
+	if n < 1 {
+		n = 1
+	}
+	addrs := map[string]string{}
+	for i := 0; i < n; i++ {
+		addrs[fmt.Sprintf("n%d", i+1)] = fmt.Sprintf("verif-n%d:7233", i+1)
+	}
+	for i := 0; i < n; i++ {
+		in := &vfInst{name: fmt.Sprintf("n%d", i+1)}
+		in.addr = addrs[in.name]
+		if n == 1 {
+			in.sm = NewShardManager(nil, scc, encryption.TLSConfig{}, loggers).(*shardManagerImpl)
+			if err := in.sm.Start(lifetime); err != nil {
+				panic(err)
+			}
+		} else {
+			// what Start does, minus opening memberlist sockets and minus the reconcile timer loop (reconciliation is an
+			// explicit step of the harness): callbacks wired, manager marked started
+			mc := &config.MemberlistConfig{Enabled: true, NodeName: in.name, ProxyAddresses: addrs}
+			in.sm = NewShardManager(mc, scc, encryption.TLSConfig{}, loggers).(*shardManagerImpl)
+			in.sm.SetupCallbacks()
+			in.sm.started = true
+		}
+		smw := &vfSMRecorder{shardManagerImpl: in.sm, e: e}
+		observer := NewReplicationStreamObserver(log.NewNoopLogger())
+		// the parameters NewClusterConnection gives the two directions (see getRoutingParameters)
+		in.outbound = NewAdminServiceProxyServer("outbound", tgtClient, srcClient, AdminServiceOverrides{}, []string{"outbound"},
+			observer.ReportStreamValue, scc, LCMParameters{},
+			RoutingParameters{OverrideShardCount: int32(sc.NS), RoutingLocalShardCount: int32(sc.NT), DirectionLabel: "outbound"},
+			loggers, smw, lifetime)
+		in.inbound = NewAdminServiceProxyServer("inbound", srcClient, tgtClient, AdminServiceOverrides{}, []string{"inbound"},
+			observer.ReportStreamValue, scc, LCMParameters{},
+			RoutingParameters{OverrideShardCount: int32(sc.NT), RoutingLocalShardCount: int32(sc.NS), DirectionLabel: "inbound"},
+			loggers, smw, lifetime)
+		e.inst = append(e.inst, in)
+	}
+	e.sm, e.inbound, e.outbound = e.inst[0].sm, e.inst[0].inbound, e.inst[0].outbound
+	if n > 1 {
+		vrt.SetHook("intra-admin-client", func(c any) any {
+			conn, ok := c.(*grpc.ClientConn)
+			if !ok {
+				return nil
+			}
+			for _, in := range e.inst {
+				if strings.Contains(conn.Target(), in.addr) {
+					return &vfIntraClient{e: e, to: in}
+				}
+			}
+			return nil
+		})
+	} else {
+		vrt.SetHook("intra-admin-client", nil)
+	}
 	return e
+}
+
+// vfIntraClient is the client an instance uses towards a peer instance (rewriter rule intraclient): a stream it
+// opens is an in-memory pair whose server end is served by the peer's real handler; messages are copied on the
+// hop, as a gRPC hop would.
+type vfIntraClient struct {
+	adminservice.AdminServiceClient
+	e  *vfRouteExec
+	to *vfInst
+}
+
+func (c *vfIntraClient) StreamWorkflowReplicationMessages(ctx context.Context, _ ...grpc.CallOption) (adminservice.AdminService_StreamWorkflowReplicationMessagesClient, error) {
+	md, _ := metadata.FromOutgoingContext(ctx)
+	cs := &vfClientStream{ctx: ctx, md: md.Copy(), recvQ: make(chan vfItem, 256), brk: make(chan struct{})}
+	sctx, cancel := context.WithCancel(metadata.NewIncomingContext(context.Background(), md.Copy()))
+	ss := &vfServerStream{ctx: sctx, cancel: cancel, recvQ: make(chan vfItem, 256), brk: make(chan struct{})}
+	cs.onSend = func(m *adminservice.StreamWorkflowReplicationMessagesRequest) error {
+		ss.deliver(vfItem{req: proto.Clone(m).(*adminservice.StreamWorkflowReplicationMessagesRequest)})
+		return nil
+	}
+	ss.onSend = func(m *adminservice.StreamWorkflowReplicationMessagesResponse) error {
+		cs.deliver(vfItem{resp: proto.Clone(m).(*adminservice.StreamWorkflowReplicationMessagesResponse)})
+		return nil
+	}
+	stop := context.AfterFunc(ctx, cancel) // the client going away cancels the server side
+	c.e.hmu.Lock()
+	c.e.intraN++
+	name := fmt.Sprintf("intra#%d->%s", c.e.intraN, c.to.name)
+	c.e.hmu.Unlock()
+	start := c.e.spawn
+	if start == nil {
+		start = func(_ string, f func()) { go f() }
+	}
+	start(name, func() {
+		defer func() {
+			if p := recover(); p != nil {
+				c.e.panics = append(c.e.panics, fmt.Sprintf("%s: %v", name, p))
+			}
+			stop()
+			ss.returned = true
+			cancel()
+			cs.deliver(vfItem{err: io.EOF})
+		}()
+		_ = c.to.outbound.StreamWorkflowReplicationMessages(ss)
+	})
+	return cs, nil
+}
+
+// syncInstances: the instances exchange their ownership state (what memberlist's push/pull converges to) and run
+// the reconciliation of their intra-proxy streams (what the manager's timer does every second).
+func (e *vfRouteExec) syncInstances(wait func()) {
+	if len(e.inst) < 2 {
+		return
+	}
+	for round := 0; round < 2; round++ {
+		for _, a := range e.inst {
+			st := a.sm.delegate.LocalState(false)
+			for _, b := range e.inst {
+				if a != b {
+					b.sm.delegate.MergeRemoteState(st, false)
+				}
+			}
+		}
+		wait()
+		for _, in := range e.inst {
+			in.sm.GetIntraProxyManager().ReconcilePeerStreams("")
+			wait()
+		}
+	}
 }
 
 // vfSMRecorder is the shard manager handed to the handlers: the real one, plus a record of every hand-off
@@ -746,6 +876,7 @@ func (e *vfRouteExec) emit(s *vfSrc) {
 		}
 	}
 	s.curHigh = b.High
+	s.lastWasWM = false
 	if b.High > p.maxHigh {
 		p.maxHigh = b.High
 	}
@@ -767,6 +898,7 @@ func (e *vfRouteExec) watermark(s *vfSrc) {
 		p.maxHigh = s.curHigh
 	}
 	p.anyReturn = true
+	s.lastWasWM = true
 	e.logf("S%d sends watermark-only batch high=%d", s.idx, s.curHigh)
 	p.deliver(vfItem{resp: &adminservice.StreamWorkflowReplicationMessagesResponse{
 		Attributes: &adminservice.StreamWorkflowReplicationMessagesResponse_Messages{
@@ -1046,7 +1178,14 @@ func (e *vfRouteExec) openTarget(t *vfTgt) {
 		}
 	}
 	e.logf("T%d opens stream #%d", t.idx, inc)
-	e.runHandler(fmt.Sprintf("T%d#%d", t.idx, inc), e.inbound, ss)
+	srv := e.inbound
+	if t.idx-1 < len(e.sc.PlaceT) {
+		srv = e.inst[e.sc.PlaceT[t.idx-1]].inbound
+	}
+	if inc > 0 && t.idx-1 < len(e.sc.PlaceTNext) {
+		srv = e.inst[e.sc.PlaceTNext[t.idx-1]].inbound
+	}
+	e.runHandler(fmt.Sprintf("T%d#%d", t.idx, inc), srv, ss)
 }
 
 func (e *vfRouteExec) openSource(s *vfSrc) {
@@ -1062,7 +1201,11 @@ func (e *vfRouteExec) openSource(s *vfSrc) {
 		return nil
 	}
 	e.logf("S%d opens stream #%d", s.idx, inc)
-	e.runHandler(fmt.Sprintf("S%d#%d", s.idx, inc), e.outbound, ss)
+	srv := e.outbound
+	if s.idx-1 < len(e.sc.PlaceS) {
+		srv = e.inst[e.sc.PlaceS[s.idx-1]].outbound
+	}
+	e.runHandler(fmt.Sprintf("S%d#%d", s.idx, inc), srv, ss)
 }
 
 // ---------------------------------------------------------------------------------------------
@@ -1125,7 +1268,46 @@ func vfShardMapString[V any](m map[history.ClusterShardID]V, f func(V) string) s
 // proxyDump reads the private state of the shard manager, the live receivers and (through the
 // debug snapshots the senders publish) the senders.
 func (e *vfRouteExec) proxyDump() string {
-	sm := e.sm
+	if len(e.inst) < 2 {
+		return e.proxyDumpOf(e.sm)
+	}
+	var sb strings.Builder
+	for _, in := range e.inst {
+		sb.WriteString(in.name + "{")
+		sb.WriteString(e.proxyDumpOf(in.sm))
+		// intra-proxy streams of this instance
+		mgr := in.sm.GetIntraProxyManager()
+		mgr.streamsMu.RLock()
+		var ks []string
+		for peer, ps := range mgr.peers {
+			for k := range ps.senders {
+				ks = append(ks, fmt.Sprintf("snd:%s:%v>%v", peer, k.sourceShard, k.targetShard))
+			}
+			for k, r := range ps.receivers {
+				ks = append(ks, fmt.Sprintf("rcv:%s:%v>%v:%v", peer, k.sourceShard, k.targetShard, r != nil && r.streamClient != nil))
+			}
+		}
+		mgr.streamsMu.RUnlock()
+		sort.Strings(ks)
+		fmt.Fprintf(&sb, " intra=%v remote=", ks)
+		in.sm.remoteNodeStatesMu.RLock()
+		var rs []string
+		for name, st := range in.sm.remoteNodeStates {
+			var sh []string
+			for k := range st.Shards {
+				sh = append(sh, k)
+			}
+			sort.Strings(sh)
+			rs = append(rs, name+fmt.Sprint(sh))
+		}
+		in.sm.remoteNodeStatesMu.RUnlock()
+		sort.Strings(rs)
+		fmt.Fprintf(&sb, "%v} ", rs)
+	}
+	return sb.String()
+}
+
+func (e *vfRouteExec) proxyDumpOf(sm *shardManagerImpl) string {
 	var sb strings.Builder
 	sm.mutex.RLock()
 	ls := make([]string, 0, len(sm.localShards))
@@ -1193,6 +1375,21 @@ func (e *vfRouteExec) proxyDump() string {
 func (e *vfRouteExec) teardown(wait func()) []string {
 	e.stop()
 	wait()
+	if len(e.inst) > 1 {
+		// the per-peer gRPC client objects of the intra-proxy managers are never dialled here (their streams are
+		// in-memory pairs); close them so that their internal goroutines leave the bubble
+		for _, in := range e.inst {
+			mgr := in.sm.GetIntraProxyManager()
+			mgr.streamsMu.Lock()
+			for _, ps := range mgr.peers {
+				if ps != nil && ps.conn != nil {
+					_ = ps.conn.Close()
+				}
+			}
+			mgr.streamsMu.Unlock()
+		}
+		wait()
+	}
 	// streams whose handler is still running get their context cancelled (client went away)
 	var stuck []string
 	for round := 0; round < 3; round++ {
